@@ -758,6 +758,75 @@ def r19_rec_bounds(ctx):
                 "computed point only inside the bounds guard): a point "
                 "beyond the end of a bounded series is handed out" % (
                     n, "/".join(sorted(bad))), P13)
+    # ------------------------------------------------------------ (b')
+    # "first after" is strictly after: the exact-interval shortcut adds a
+    # strictly positive amount to the probe.  With r the time since the last
+    # member (0 <= r < period), `period - r` is in (0, period]; an amount of
+    # the form `x % period` is in [0, period) and is zero for a probe that is
+    # itself a member.
+    from ..flow import single_def
+    rule_sa = "R19.strictly-after"
+    gfa = meth["get_first_after"]
+    probe = gfa.call_params[0] if gfa.call_params else None
+    adds = []
+    for n in walk_no_nested(gfa.node):
+        if isinstance(n, ast.BinOp) and isinstance(n.op, ast.Add) and \
+                probe in (U(n.left), U(n.right)):
+            adds.append(n.right if U(n.left) == probe else n.left)
+
+    def resolve(e, depth=0):
+        if isinstance(e, ast.Name) and depth < 4:
+            v = single_def(gfa.node, e.id)
+            if v is not None:
+                return resolve(v, depth + 1)
+        return e
+
+    def is_mod_amount(e, depth=0):
+        """expression whose value is some x % period (possibly wrapped in
+        floor/int/Duration(seconds=...))"""
+        e = resolve(e)
+        if isinstance(e, ast.BinOp) and isinstance(e.op, ast.Mod):
+            return True
+        if isinstance(e, ast.Call) and U(e.func) in ("floor", "int", "abs",
+                                                     "math.floor") and e.args:
+            return is_mod_amount(e.args[0], depth + 1)
+        if isinstance(e, ast.Call) and U(e.func).endswith("Duration"):
+            for k in e.keywords:
+                if is_mod_amount(k.value, depth + 1):
+                    return True
+        if isinstance(e, ast.Subscript) and isinstance(
+                e.value, ast.Call) and U(e.value.func) == "divmod":
+            return U(e.slice) == "1"
+        if isinstance(e, ast.Name):
+            # second target of `q, r = divmod(...)`
+            for st in walk_no_nested(gfa.node):
+                if isinstance(st, ast.Assign) and isinstance(
+                        st.targets[0], ast.Tuple) and len(
+                            st.targets[0].elts) == 2 and isinstance(
+                                st.value, ast.Call) and U(
+                                    st.value.func) == "divmod" and U(
+                                        st.targets[0].elts[1]) == e.id:
+                    return True
+        return False
+    for e in adds:
+        e0 = resolve(e)
+        key = ctx.fkey(gfa, None, "strictly-after")
+        if isinstance(e0, ast.BinOp) and isinstance(e0.op, ast.Sub) and \
+                "_duration" in U(e0.left) and is_mod_amount(e0.right):
+            rep.ok(rule_sa, key, gfa.loc(e), "the shortcut adds period - "
+                   "(time since the last member): strictly positive", P13)
+        elif is_mod_amount(e0):
+            rep.violation(
+                rule_sa, key, gfa.loc(e),
+                "get_first_after adds %s to the probe: a remainder modulo "
+                "the period is zero when the probe is itself a member, so "
+                "the probe's own instant is returned instead of the next "
+                "member (and the last member instead of None)" % U(e0)[:80],
+                P13)
+        elif "_duration" in U(e0) or "Duration" in U(e0):
+            rep.undecided(rule_sa, key, gfa.loc(e), "the amount %s added to "
+                          "the probe is not of a form whose sign this rule "
+                          "reads" % U(e0)[:60], P13)
     # ---------------------------------------------------------------- (c)
     rule = "R19.neighbour-step"
     rep.need_anchor(rule, "get_next/get_prev")
